@@ -431,12 +431,77 @@ BP('C17', 'rf3-c17-3', 'rf3-c17-3.diff',
 BP('C17', 'rf3-c17-4', 'rf3-c17-4.diff',
    'independent refactoring focused on the code the second-round rules anchor in: The shared private free function `compute_block_number_to_be_signed(block_number, security_parameter, step)` is inlined into its two only callers and deleted. CardanoBlocksTransactionsSigningConfig::compute_block_number_to_be_signed now computes `non_z')
 
+BP('C02', 'rf4-c02-1', 'rf4-c02-1.diff',
+   'independent refactoring, second focused round (other functions of the property): ConcatenationClerk::select_valid_signatures_for_k_indices: the first phase (verify each single signature, skip the invalid ones, merge the copies of one signature into a single entry carrying the sorted union of their verified indices) is extracted ')
+BP('C02', 'rf4-c02-2', 'rf4-c02-2.diff',
+   'independent refactoring, second focused round (other functions of the property): ConcatenationClerk::select_valid_signatures_for_k_indices, phases 2 and 3. Phase 2 (per-index winner selection with per-signature removal lists): the mutable flag `insert_this_sig` and the nested `if let Some(..) .. else ..` are replaced by a let-el')
+BP('C02', 'rf4-c02-3', 'rf4-c02-3.diff',
+   'independent refactoring, second focused round (other functions of the property): ConcatenationProof::aggregate_signatures: the construction of the (signature, registered party) list is extracted into the new private associated function `pair_signatures_with_registered_parties`, written as a for loop with `?` instead of `iter().m')
+BP('C02', 'rf4-c02-4', 'rf4-c02-4.diff',
+   'independent refactoring, second focused round (other functions of the property): mithril-aggregator MultiSignerImpl::create_multi_signature: the nested `match result { Ok => .., Err(err) => match err.downcast_ref() {..} }` is flattened: the aggregation result goes into an intermediate variable, the Ok case returns early, the rec')
+BP('C04', 'rf4-c04-1', 'rf4-c04-1.diff',
+   'independent refactoring, second focused round (other functions of the property): Certificate::try_compute_hash: the signature part (signed entity type + signature payload) is extracted into a new private method CertificateSignature::feed_certificate_hash (the `if let MultiSignature` becomes an exhaustive match), and the ancillar')
+BP('C04', 'rf4-c04-2', 'rf4-c04-2.diff',
+   'independent refactoring, second focused round (other functions of the property): SignedEntityType::feed_hash: the separate leading `if matches!(self, Self::CardanoBlocksTransactions(..)) { hasher.update(index) }` guard is moved into the CardanoBlocksTransactions arm of the following match (as its first statement), so the functio')
+BP('C04', 'rf4-c04-3', 'rf4-c04-3.diff',
+   'independent refactoring, second focused round (other functions of the property): ProtocolParameters::compute_hash: instead of three incremental Sha256::update calls on a mutable hasher, the hashed bytes are assembled by a new private helper hash_preimage() (big-endian k, big-endian m, big-endian U8F24 phi_f_fixed, concatenated i')
+BP('C04', 'rf4-c04-4', 'rf4-c04-4.diff',
+   'independent refactoring, second focused round (other functions of the property): ProtocolKey codecs (crypto_helper/types/protocol_key.rs): (a) the fallback decoding `match first(encoded) { Ok(res) => Ok(res), Err(_) => second(encoded) }` is rewritten as `first(encoded).or_else(|_| second(encoded))` in both the default json-hex P')
+BP('C05', 'rf4-c05-1', 'rf4-c05-1.diff',
+   'independent refactoring, second focused round (other functions of the property): ConcatenationProof::from_bytes_legacy (mithril-stm/src/proof_system/concatenation/proof.rs) is split in three: the big-endian u64 length-prefix read that was written out twice (once for the signature count, once per entry) is extracted into a privat')
+BP('C05', 'rf4-c05-2', 'rf4-c05-2.diff',
+   'independent refactoring, second focused round (other functions of the property): AggregateSignature decoding (mithril-stm/src/protocol/aggregate_signature/signature.rs): the identical `match proof_type { Concatenation | Snark | IvcSnark => ...::from_bytes(..) }` dispatch that was duplicated in from_bytes_cbor and from_bytes_lega')
+BP('C05', 'rf4-c05-3', 'rf4-c05-3.diff',
+   'independent refactoring, second focused round (other functions of the property): JSON-hex / bytes-hex key decoding helpers in mithril-common/src/crypto_helper/codec: key_decode_hex (json_hex.rs) is split into two private helpers, decode_hex_payload (trim + hexadecimal -> bytes) and deserialize_key_from_json_bytes::<T> (serde_jso')
+BP('C05', 'rf4-c05-4', 'rf4-c05-4.diff',
+   'independent refactoring, second focused round (other functions of the property): ProtocolKey decoding (mithril-common/src/crypto_helper/types/protocol_key.rs): the two `try one text encoding, fall back to the other` decoders that were written inline - JSON-hex then bytes-hex in the default ProtocolKeyCodec::decode_key, bytes-hex')
+BP('C07', 'rf4-c07-1', 'rf4-c07-1.diff',
+   'independent refactoring, second focused round (other functions of the property): KeyRegistration::register_by_entry (duplicate-key rejection) split into two private helpers: has_registered_key_of(&self, &RegistrationEntry) -> bool holding the `is one of the entry`s verification keys already recorded` predicate (written with earl')
+BP('C07', 'rf4-c07-2', 'rf4-c07-2.diff',
+   'independent refactoring, second focused round (other functions of the property): KeyRegistration::close_registration split in two: the total-stake computation (overflow check + zero-total check) moves to a new private helper compute_total_stake(&self) -> StmResult<Stake>, with the try_fold/ok_or iterator chain rewritten as a for')
+BP('C07', 'rf4-c07-3', 'rf4-c07-3.diff',
+   'independent refactoring, second focused round (other functions of the property): BlsVerificationKeyProofOfPossession::verify_proof_of_possession flattened: the outer `match vk.validate() { Ok(_) => {..}, Err(e) => blst_error_to_stm_error(..) }` becomes an `if let Err(e) = ... { return blst_error_to_stm_error(e, None, Some(self.v')
+BP('C07', 'rf4-c07-4', 'rf4-c07-4.diff',
+   'independent refactoring, second focused round (other functions of the property): OpCert clean-up in opcert.rs. (a) OpCert::validate: the `if cold_vk.verify(..).is_ok() { return Ok(()) } Err(OpCertInvalid)` shape becomes a destructuring of opcert_without_vk into locals, an intermediate `signed_message` variable, and a single `col')
+BP('C10', 'rf4-c10-1', 'rf4-c10-1.diff',
+   'independent refactoring, second focused round (other functions of the property): VerifiedDigests::list_immutable_files_not_verified: the per-name comparison loop is rewritten from a `match` with a guard arm (`Some(d) if d != digest` / `None` / `_`) into a `let ... else { ...; continue }` lookup followed by an explicit boolean `i')
+BP('C10', 'rf4-c10-2', 'rf4-c10-2.diff',
+   'independent refactoring, second focused round (other functions of the property): InternalArtifactProver::list_missing_immutable_files: the two nested `for` loops that push into a mutable Vec are rewritten as an iterator chain (`range.clone().flat_map(trio names).filter(!exists).collect()`); the construction of the three file nam')
+BP('C10', 'rf4-c10-3', 'rf4-c10-3.diff',
+   'independent refactoring, second focused round (other functions of the property): InternalArtifactProver::read_digest_file: the two sequential length checks (`len() > 1` then `is_empty()`) followed by indexing `&digest_files[0]` are replaced by a single slice-pattern `match digest_files.as_slice()` ([one] => use it, [] => `No dig')
+BP('C10', 'rf4-c10-4', 'rf4-c10-4.diff',
+   'independent refactoring, second focused round (other functions of the property): CardanoImmutableDigester (cardano_immutable_digester.rs): (a) the private free function list_immutable_files_to_process_for_range is inlined into its only caller compute_digests_for_range, the `into_iter().filter().collect()` becoming an in-place `V')
+BP('C14', 'rf4-c14-1', 'rf4-c14-1.diff',
+   'independent refactoring, second focused round (other functions of the property): MithrilCertifierService::create_certificate split into private helpers: the `already certified / expired` refusal moves to ensure_open_message_can_be_certified (returns Result<(), CertifierServiceError>, caller uses `?`), the certificate assembly (s')
+BP('C14', 'rf4-c14-2', 'rf4-c14-2.diff',
+   'independent refactoring, second focused round (other functions of the property): BufferedCertifierService clean-up: the nested `match result { Err(e) => match e.downcast_ref() {..} }` blocks of register_single_signature and try_register_buffered_signatures_to_current_open_message are flattened into early returns / let-else + `co')
+BP('C14', 'rf4-c14-3', 'rf4-c14-3.diff',
+   'independent refactoring, second focused round (other functions of the property): CertificateRepository: the repeated `record.map(|c| c.try_into().map_err(Into::into)).transpose()` tail of get_certificate, get_latest_genesis_certificate and get_master_certificate_for_epoch is extracted into the private generic free function conve')
+BP('C14', 'rf4-c14-4', 'rf4-c14-4.diff',
+   'independent refactoring, second focused round (other functions of the property): MultiSignerImpl::create_multi_signature: the nested `match aggregate(..) { Ok => .., Err(err) => match err.downcast_ref() {..} }` is flattened: the aggregation result is bound to a local, success returns early, the `quorum not reached` classificatio')
+BP('C15', 'rf4-c15-1', 'rf4-c15-1.diff',
+   'independent refactoring, second focused round (other functions of the property): services/signed_entity.rs, MithrilSignedEntityService::create_artifact: the lock handling around the spawned artifact task is split out of the trait method into two new private helpers. `lock_signed_entity_type_if_free(&self, &SignedEntityType) -> S')
+BP('C15', 'rf4-c15-2', 'rf4-c15-2.diff',
+   'independent refactoring, second focused round (other functions of the property): runtime/runner.rs, AggregatorRunner::create_certificate and ::create_artifact. create_certificate: result local renamed to `created_certificate`; `if certificate.is_some() { metric.increment() } Ok(certificate)` rewritten as a `match` (Some(certific')
+BP('C15', 'rf4-c15-3', 'rf4-c15-3.diff',
+   'independent refactoring, second focused round (other functions of the property): runtime/runner.rs, the open-message helpers of AggregatorRunner. get_current_open_message_for_signed_entity_type: `Ok(expr.with_context(..)?)` simplified to returning `expr.with_context(..)`. get_current_non_certified_open_message: the `match curren')
+BP('C15', 'rf4-c15-4', 'rf4-c15-4.diff',
+   'independent refactoring, second focused round (other functions of the property): database/repository/open_message_repository.rs. create_open_message, create_or_replace_open_message and update_open_message (the latter is the `open-message update` persistence step of certificate sealing and of expiration marking): the query is now')
+BP('C17', 'rf4-c17-1', 'rf4-c17-1.diff',
+   'independent refactoring, second focused round (other functions of the property): mithril-common/src/entities/signed_entity_type.rs (discriminants handling): SignedEntityType::index() now delegates to SignedEntityTypeDiscriminants::from(self).index() instead of duplicating the variant->id table; SignedEntityTypeDiscriminants::fro')
+BP('C17', 'rf4-c17-2', 'rf4-c17-2.diff',
+   'independent refactoring, second focused round (other functions of the property): mithril-signer/src/services/certifier.rs (signer-side caller of SignedEntityConfig::list_allowed_signed_entity_types): extracted the `fetch current SignedEntityConfig from the provider and derive the allowed signed entity types for the time point` s')
+BP('C17', 'rf4-c17-3', 'rf4-c17-3.diff',
+   'independent refactoring, second focused round (other functions of the property): mithril-aggregator/src/runtime/runner.rs (aggregator-side callers of SignedEntityConfig::list_allowed_signed_entity_types and time_point_to_signed_entity): the long chained expression `epoch_service.read().await.signed_entity_config()?.<call>(..)?` ')
+BP('C17', 'rf4-c17-4', 'rf4-c17-4.diff',
+   'independent refactoring, second focused round (other functions of the property): mithril-aggregator/src/services/epoch_service.rs (producer of the SignedEntityConfig that the runner feeds to list_allowed_signed_entity_types / time_point_to_signed_entity): the inline construction of the epoch`s SignedEntityConfig in MithrilEpochS')
+
 
 # ---- the independent refactorings of one property applied TOGETHER (interactions between rewritten helpers)
 def _combos():
     by = {}
     for b in list(BENIGN):
-        if 'patch' in b and b['id'].startswith(('rf-', 'rf3-')):
+        if 'patch' in b and b['id'].startswith(('rf-', 'rf3-', 'rf4-')):
             by.setdefault(b['prop'], []).append(b['patch'])
     for prop, ps in sorted(by.items()):
         if len(ps) >= 2:
